@@ -58,6 +58,12 @@ func (x *Exec) keySort(t types.Type) (Sort, error) {
 
 // packKey converts a Go value term into the key representation.
 func (x *Exec) packKey(t types.Type, v Term) (Term, error) {
+	switch t.Underlying().(type) {
+	case *types.Array, *types.Struct:
+		if v.Sort.BVWidth() > 0 {
+			return v, nil // already packed (bound key variable of allkeys)
+		}
+	}
 	switch u := t.Underlying().(type) {
 	case *types.Array:
 		var cur *Term
